@@ -21,7 +21,7 @@ MINIMUMS = {"quick": {"returned_and_judged": 35, "refused": 40, "sequences_judge
             "thorough": {"returned_and_judged": 900, "refused": 600, "sequences_judged": 2200}}
 CASE_TIMEOUT = 60
 MAX_INCONCLUSIVE_FRACTION = 0.5
-CLASSES = ["K1", "K2", "K3", "K4", "K5", "K6", "K6", "K7", "K9", "K3", "K2"]
+CLASSES = ["K1", "K2", "K3", "K4", "K5", "K6", "K6", "K7", "K9", "K3", "K2", "K12"]
 
 
 def cases(tier, seed):
